@@ -104,6 +104,38 @@ def run(ctx) -> None:
                         changed = True
     since = [c for c in source.calls_in(etc) if last_attr(c) == "producersHaveOutputSinceDate"]
     ctx.floor("C13.R10-cutoff-is-the-last-launch", len(since), 1, "new-producer-output tests in EngineTaskController")
+    # a clock read AFTER the task generator returned (stored on the success continuation of the launch) is not the launch time: output the
+    # producers write while the backend is still creating the task is older than that cutoff and is never reported as new, although the
+    # execution just launched began before it existed
+    late = []
+    for n in cfg.nodes:
+        if n.kind == "stmt" and isinstance(n.ast, ast.Assign) and len(n.ast.targets) == 1 and not isinstance(n.ast.targets[0], ast.Name) and clock(n.ast.value):
+            in_else = any(isinstance(a_, ast.Try) and any(any(n.ast is y for y in ast.walk(st_)) for st_ in a_.orelse)
+                          and any(any(g_.ast is y for y in ast.walk(st_)) for st_ in a_.body for g_ in gens) for a_ in source.ancestors(n.ast))
+            after_gen = any(n.id in cfg.reach([g_], include_starts=False, ignore_labels=("exc",)) for g_ in gens) and not all(
+                cfg.every_path_from_passes(n, gens, ignore_labels=("exc",)) for _ in [0])
+            if in_else or after_gen:
+                late.append(n)
+    for n in late:
+        tsrc = source.src(n.ast.targets[0])
+
+        def reads_target(e: ast.AST, depth: int = 0) -> bool:
+            if any(source.src(x) == tsrc for x in ast.walk(e)):
+                return True
+            if depth < 3:
+                return any(reads_target(v, depth + 1) for x in ast.walk(e) if isinstance(x, ast.Name) for v in match.assigned_value(etc, x.id))
+            return False
+        used_as_cutoff = any(c.args and reads_target(c.args[0]) for c in since)
+        if used_as_cutoff:
+            ctx.ob("C13.R10-cutoff-is-the-last-launch", n.ast, False,
+                   "%s - the cutoff of the new-output test - is set to the time at which the task generator RETURNED (%s), not to the time the launch "
+                   "began: on a backend where creating a task takes a while, output the producers write in that window is older than the cutoff "
+                   "and never counts as new; when it is their final output and they then finish, the following passes do not execute, use up the "
+                   "retries (repeatRetries <= 2) and the engine stops having only run a task that began before that output existed"
+                   % (short(n.ast.targets[0], 30), short(n.ast.value, 30)),
+                   construct="the launch time is read before self.taskGenerator is called")
+            carriers.add(source.src(n.ast.targets[0]))
+            success_carriers.add(source.src(n.ast.targets[0]))
     ctx.require(bool(carriers), "anchor missing: the attribute that records the launch time before self.taskGenerator")
 
     def cutoff_ok(e: ast.AST, depth: int = 0) -> bool:
